@@ -7,7 +7,9 @@
 #include "cstl/heap.h"
 
 #define MAXN 2048
-struct el { int prio; int id; struct cstl_heap_node n; };
+/* two node members: the second heap object is configured differently in every respect (node member, comparison
+ * function, private pointer), so swapping the heaps has to carry the configuration along with the contents */
+struct el { int prio; int id; struct cstl_heap_node n; long pad; struct cstl_heap_node n2; };
 static struct el pool[MAXN + 1];
 static int N, SWAP, PROBES = 1, BIAS = 50;
 static struct cstl_heap H[2];
@@ -15,6 +17,7 @@ static int cur;
 static unsigned char held[MAXN + 1];
 
 static int cmp(const void *a, const void *b, void *p) { e_check_priv(p); return e_cmp3(((const struct el *)a)->prio, ((const struct el *)b)->prio); }
+static int cmp2(const void *a, const void *b, void *p) { e_check_priv2(p); return e_cmp3(((const struct el *)a)->prio, ((const struct el *)b)->prio); }
 static int id_of_el(const void *e)
 {
     uintptr_t d;
@@ -27,7 +30,7 @@ static int id_of_el(const void *e)
 static int id_of_bn(const struct cstl_bintree_node *bn)
 {
     if (!bn) return 0;
-    return id_of_el((const char *)bn - offsetof(struct el, n.bn));
+    return id_of_el((const char *)bn - H[cur].bt.off);      /* the member the current heap is configured with */
 }
 /* fls probes: 2^i-1, 2^i, 2^i+1 for i = 0..63, then 0 */
 static unsigned long fls_probe(int k)
@@ -57,13 +60,13 @@ static void drv_reset(void)
 {
     int i;
 #ifdef USE_INITIALIZER
-    { struct cstl_heap x = CSTL_HEAP_INITIALIZER(struct el, n, cmp, E_PRIV); H[0] = x; H[1] = x; }
+    { struct cstl_heap x = CSTL_HEAP_INITIALIZER(struct el, n, cmp, E_PRIV), y = CSTL_HEAP_INITIALIZER(struct el, n2, cmp2, E_PRIV2); H[0] = x; H[1] = y; }
 #else
     cstl_heap_init(&H[0], cmp, E_PRIV, offsetof(struct el, n));
-    cstl_heap_init(&H[1], cmp, E_PRIV, offsetof(struct el, n));
+    cstl_heap_init(&H[1], cmp2, E_PRIV2, offsetof(struct el, n2));
 #endif
     cur = 0;
-    for (i = 0; i <= N; i++) { memset(&pool[i].n, 0, sizeof pool[i].n); held[i] = 0; }
+    for (i = 0; i <= N; i++) { memset(&pool[i].n, 0, sizeof pool[i].n); memset(&pool[i].n2, 0, sizeof pool[i].n2); held[i] = 0; }
 }
 static void drv_aborted(void) { }
 static void clear_cb(void *e, void *p)
@@ -71,7 +74,7 @@ static void clear_cb(void *e, void *p)
     int id = id_of_el(e);
     (void)p;
     ev_add("%d", id);
-    if (id > 0) { held[id] = 0; memset(&pool[id].n, 0xA5, sizeof pool[id].n); }
+    if (id > 0) { held[id] = 0; memset(&pool[id].n, 0xA5, sizeof pool[id].n); memset(&pool[id].n2, 0xA5, sizeof pool[id].n2); }
 }
 static void drv_apply(const vop_t *op, jb_t *res)
 {
@@ -120,13 +123,15 @@ static void drv_ser(jb_t *b)
     mark(bt->root, 0);
     jb_printf(b, "{\"root\":%d,\"size\":", id_of_bn(bt->root)); jb_size(b, bt->size);
     jb_printf(b, ",\"cur\":%d,\"osize\":", cur); jb_size(b, H[1 - cur].bt.size);
-    jb_printf(b, ",\"oroot\":%d,\"bad\":%s", id_of_bn(H[1 - cur].bt.root), malformed ? "true" : "false");
+    jb_printf(b, ",\"oroot\":%d,\"cfg\":%d,\"bad\":%s", id_of_bn(H[1 - cur].bt.root),
+              bt->off == offsetof(struct el, n.bn) && bt->cmp.func == cmp && bt->cmp.priv == E_PRIV ? 1 :
+              bt->off == offsetof(struct el, n2.bn) && bt->cmp.func == cmp2 && bt->cmp.priv == E_PRIV2 ? 2 : -1, malformed ? "true" : "false");
     for (f = 0; f < 3; f++) {
         jb_printf(b, ",\"%s\":[", nm[f]);
         for (i = 1; i <= N; i++) {
             int v = 0;
             if (member[i] && !malformed) {
-                struct cstl_bintree_node *bn = &pool[i].n.bn;
+                struct cstl_bintree_node *bn = (struct cstl_bintree_node *)((char *)&pool[i] + bt->off);
                 v = f == 0 ? id_of_bn(bn->p) : f == 1 ? id_of_bn(bn->l) : id_of_bn(bn->r);
             }
             jb_printf(b, "%s%d", i > 1 ? "," : "", v);
